@@ -330,8 +330,8 @@ class SettingsWriter:
                 cleanedData[settingObj.name] = settingDatum
 
         # add ARMI version to the settings YAML
-        if CONF_VERSIONS not in cleanedData:
-            cleanedData[CONF_VERSIONS] = {}
+        # (on a copy: the dumped value is the settings object's own dictionary)
+        cleanedData[CONF_VERSIONS] = dict(cleanedData.get(CONF_VERSIONS, {}))
         cleanedData[CONF_VERSIONS]["armi"] = version
 
         # this gets rid of a !!omap associated with ordered dicts
